@@ -75,7 +75,8 @@ struct Value {
     static std::vector<Value> parse_args(const char* args_string, size_t args_len = 0) {
         if (args_len == 0) args_len = strlen(args_string);
         std::vector<const char*> args;
-        char* args_ptr[args_len];
+        // (a variable-length array of args_len pointers on the stack overflowed it for long inputs)
+        std::vector<char*> args_ptr;
         size_t arg_idx = 0;
         size_t start = 0;
         for (size_t i = 0; i <= args_len; i++) {
@@ -96,7 +97,7 @@ struct Value {
                 if (start == i) {
                     start++;
                 } else {
-                    args_ptr[arg_idx] = strndup(&args_string[start], i - start);
+                    args_ptr.push_back(strndup(&args_string[start], i - start));
                     args.push_back(args_ptr[arg_idx]);
                     arg_idx++;
                     start = i + 1;
